@@ -352,6 +352,12 @@ func (e *env) step(rng *rand.Rand) {
 				kind = "right"
 			} else {
 				st = state(rng.Int63n(cur))
+				switch cur % 4 {
+				case 1:
+					st = "!!!" // no base64 at all: the completing request refuses it like a stale one, the session stays
+				case 2:
+					st = base64.RawURLEncoding.EncodeToString([]byte(`{"offset":"x"}`))
+				}
 			}
 		}
 		hd := map[string]string{}
